@@ -12,6 +12,25 @@ COMMON_NOTE = ('Trusted: Coq 8.16.1 kernel and vm_compute (no native_compute); t
                'not verified. ')
 
 CHECKS = {
+ 'C01': dict(
+   text='Proof (Coq): for every tree, every string of code points, every namespace table satisfying doc_ok, a conforming XML 1.0 + '
+        'Namespaces parser (Gallina state-machine specification, validated against expat on every run) accepts Element.toXml output and '
+        'prologue+root documents (corollary of the C02 round trip); the filter leaves only XML Char code points. The regenerated filter '
+        'table is re-proved to cover the complement of Char. History quantifier through the C14 namespace-table invariant. Part '
+        'renderers (contentxml...) are tied by correspondence and the expat oracle over fresh, loaded and post-history documents.',
+   note='Axioms: none. Modelled by hand: _escape/_sanitize/_quoteattr/Text.toXml/CDATASection.toXml/Element.toXml; regenerated: the '
+        'filter set and per-code-point escape tables (GenChars.v).',
+   tech='Coq proof (XML printer/parser round trip) + regenerated tables + extracted-model correspondence',
+   ref='5/C01'),
+ 'C02': dict(
+   text='Proof (Coq): xml_parse (prologue ++ node_toXml F env true t) = Some (canon F t) for every tree t and namespace table with '
+        'doc_ok, by induction through lexer state machine, tree builder and namespace resolution; character-level lemmas for text, the '
+        'three attribute quoting branches, and CDATA incl. "]]>" and CR. canon F equals the strict canonical form except on the recorded '
+        'known finding (discouraged code points), proved as C02_canon_strict / C02_strict_refuted.',
+   note='Axioms: none. Names are ASCII NCNames; namespace names contain no quote/TAB/LF/CR (doc_ok). The specification parser covers '
+        'the XML sub-language without DTD, PI, comments.',
+   tech='Coq proof by induction over strings and rose trees (closed under the global context) + correspondence',
+   ref='5/C02'),
  'C17': dict(
    text='Proof (Coq): for every string and every pre-existing child list, extractText(addTextToElement(e,s)) = before ++ s; '
         'emitted text nodes hold no TAB/LF/double blank and are never adjacent; elements allowing text,s,tab,line-break accept '
